@@ -142,11 +142,13 @@ def main():
             e2validation.update(v)
             core.log(f"[{pid}] mirsym translator validation: ok={v.get('ok')} compared={v.get('compared')} disagreements={v.get('n_disagreements')} {v.get('error', '')}")
             if not v.get('ok'):
+                # a pass of an executor that disagrees with the native build proves nothing -> inconclusive.
+                # a counterexample is still replayed natively below: the native run is the arbiter of a VIOLATION.
                 for s in e2specs:
                     r = e2results[s.name]
-                    r['status'] = 'inconclusive'
-                    r['inconclusive'] = ['translator validation failed (MIR executor disagrees with the native build): ' + json.dumps(v.get('disagreements') or v.get('error'))[:800]] + r.get('inconclusive', [])
-                    r['violations'] = []
+                    if r['status'] != 'fail':
+                        r['status'] = 'inconclusive'
+                        r['inconclusive'] = ['translator validation failed (MIR executor disagrees with the native build): ' + json.dumps(v.get('disagreements') or v.get('error'))[:800]] + r.get('inconclusive', [])
 
     threads = []
     n_kani_jobs = args.jobs if not e2specs else max(2, args.jobs // 2)
@@ -187,6 +189,13 @@ def main():
     def replay_and_classify(entry, name, crate, vals, descs, buf_repr, others, role_key, native_name=None, hang=False):
         """native replay of a solver counterexample; returns after filing the entry under violations/known/inconclusive"""
         rp = os.path.join(replay_dir, f'{name}.replay')
+        if len(violations) >= 3 and not (role_key and role_key in known):
+            # three natively confirmed violations settle the verdict of this run: further counterexamples are kept as files only
+            core.write_replay_file(rp, native_name or name, vals, f'property={pid}\ncrate={crate}\ntier={tier}\nharness={name}\nfailed: ' + '; '.join(descs[:4]) + f'\ninput={buf_repr}')
+            entry['counterexample'] = dict(input=buf_repr, others=others, replay=rp, native='not replayed (verdict already settled by three confirmed violations)')
+            entry['verdict'] = 'inconclusive: solver counterexample not replayed (three violations of this run are already confirmed natively)'
+            inconclusive.append(entry)
+            return
         comment = (f'property={pid}\ncrate={crate}\ntier={tier}\nharness={name}\nfailed: ' + '; '.join(descs[:4]) +
                    f'\ninput={buf_repr}\nother values={others}')
         core.write_replay_file(rp, native_name or name, vals, comment)
